@@ -479,6 +479,9 @@ impl Ctx {
                     let mut runner = TestRunner::new(cfg);
                     let failed = AtomicBool::new(false);
                     let first_sig: Mutex<Option<String>> = Mutex::new(None);
+                    // the failure as first observed (case and verdict), reported if the shrunk case
+                    // does not reproduce the same signature
+                    let first_fail: Mutex<Option<(Value, Fail)>> = Mutex::new(None);
                     let local: std::cell::RefCell<Stats> = std::cell::RefCell::new(Stats::default());
                     let s = strat();
                     let res = runner.run(&s, |case| {
@@ -508,6 +511,7 @@ impl Ctx {
                                 match &*fs {
                                     None => {
                                         *fs = Some(f.sig.clone());
+                                        *first_fail.lock().unwrap() = Some((serde_json::to_value(&case).unwrap_or(Value::Null), Fail::new(f.sig.clone(), f.msg.clone())));
                                         failed.store(true, Ordering::Relaxed);
                                         Err(TestCaseError::fail(f.sig))
                                     }
@@ -522,14 +526,20 @@ impl Ctx {
                         Ok(()) => {}
                         Err(TestError::Fail(_, minimal)) => {
                             let mut obs = Obs::default();
-                            let f = match no_panic(name, || check(&minimal, &mut obs)) {
-                                Ok(Err(f)) | Err(f) => f,
-                                Ok(Ok(())) => Fail::new(
-                                    first_sig.lock().unwrap().clone().unwrap_or_default(),
-                                    "failure did not reproduce on the shrunk case (non-deterministic check?)",
-                                ),
+                            let want = first_sig.lock().unwrap().clone().unwrap_or_default();
+                            let rerun = match no_panic(name, || check(&minimal, &mut obs)) {
+                                Ok(Err(f)) | Err(f) => Some(f),
+                                Ok(Ok(())) => None,
                             };
-                            self.violation(name, &f, serde_json::to_value(&minimal).unwrap_or(Value::Null));
+                            match rerun {
+                                Some(f) if f.sig == want => self.violation(name, &f, serde_json::to_value(&minimal).unwrap_or(Value::Null)),
+                                // the shrunk case shows something else (or nothing) this time: report the
+                                // failure exactly as it was first observed, never a different signature
+                                _ => match first_fail.lock().unwrap().take() {
+                                    Some((case, f)) => self.violation(name, &f, case),
+                                    None => self.violation(name, &Fail::new(want, "failure did not reproduce on the shrunk case"), serde_json::to_value(&minimal).unwrap_or(Value::Null)),
+                                },
+                            }
                         }
                         Err(TestError::Abort(why)) => {
                             self.inconclusive(format!("{name}: proptest aborted: {why}"));
@@ -841,6 +851,12 @@ pub fn main(prop: &'static str, rule: &str, assumptions: &[&str], subs: &[Sub], 
             let Ok(text) = std::fs::read_to_string(&p) else { continue };
             let Ok(doc) = serde_json::from_str::<Value>(&text) else { continue };
             let subname = doc["sub"].as_str().unwrap_or("");
+            // a property checked by several binaries shares one directory: files name their part
+            if let Some(part) = doc["part"].as_str() {
+                if std::env::var("VERIF_PART").map(|p| p != part).unwrap_or(false) {
+                    continue;
+                }
+            }
             let Some(sub) = subs.iter().find(|s| s.name == subname) else {
                 ctx.inconclusive(format!("regression file {} names unknown sub-check", p.display()));
                 continue;
